@@ -13,7 +13,7 @@ import (
 )
 
 func init() {
-	All["C11"] = c11
+	All["C11"] = c11own // c11 plus the rules only C11 itself takes over from C18 (r7_s3_resolver.go)
 	core.Explanations["C11"] = "Decides, for every function of the module that derives a cluster slot, the structure every correct implementation of Redis Cluster's HASH_SLOT has: " +
 		"(R11.1) digest.Crc16 is called only by the slot functions and no other function masks with 16383 / reduces modulo 16384; (R11.2) the CRC-16 table equals the XMODEM (poly 0x1021) table computed in the checker and the update step is (crc<<8) ^ tab[((crc>>8) ^ b) & 0xff] over all bytes from 0; " +
 		"(R11.3) every return is Crc16(x) & 16383; (R11.4) x is the whole key, or key[s+1:e] where s is a first-match scan for '{' from 0 and e a first-match scan for '}' from s+1, the sliced form being returned exactly on the paths where both were found and e != s+1 and the whole-key form exactly otherwise (all return paths enumerated); " +
